@@ -63,6 +63,8 @@ pub fn pick_strategy(r: &mut Rng, horizon: u32) -> Strategy {
 struct Gen<'a> {
     r: &'a mut Rng,
     elem: ElemKind,
+    /// sequential histories do not need unique values: empty strings and duplicates are welcome
+    dups: bool,
     next_val: u64,
     /// values that exist somewhere (for contains/index)
     pool: Vec<MVal>,
@@ -70,6 +72,14 @@ struct Gen<'a> {
 
 impl Gen<'_> {
     fn fresh(&mut self) -> MVal {
+        if self.dups && self.r.chance(1, 5) {
+            if self.elem == ElemKind::Str && self.r.chance(1, 2) {
+                return MVal::Str(String::new());
+            }
+            if !self.pool.is_empty() && self.elem != ElemKind::Nested {
+                return self.r.pick(&self.pool).clone();
+            }
+        }
         self.next_val += 1;
         let v = match self.elem {
             ElemKind::U8 => MVal::Int(1 + (self.next_val % 0xC0)),
@@ -135,7 +145,7 @@ fn elem_for(r: &mut Rng, with_nested: bool) -> ElemKind {
 pub fn generate_c16(run_seed: u64, thorough: bool) -> ListDesc {
     let mut r = Rng::new(rng::derive(run_seed, &[rng::label("workload")]));
     let elem = elem_for(&mut r, false);
-    let mut g = Gen { r: &mut r, elem, next_val: 0, pool: vec![] };
+    let mut g = Gen { r: &mut r, elem, dups: false, next_val: 0, pool: vec![] };
     let nlists = 1 + g.r.weighted(&[50, 35, 15]);
     let mut init = Vec::new();
     for _ in 0..nlists {
@@ -262,7 +272,7 @@ pub fn generate_c16(run_seed: u64, thorough: bool) -> ListDesc {
 pub fn generate_c15(run_seed: u64, thorough: bool, faults: bool) -> ListDesc {
     let mut r = Rng::new(rng::derive(run_seed, &[rng::label("workload")]));
     let elem = if faults { ElemKind::T24 } else { elem_for(&mut r, true) };
-    let mut g = Gen { r: &mut r, elem, next_val: 0, pool: vec![] };
+    let mut g = Gen { r: &mut r, elem, dups: true, next_val: 0, pool: vec![] };
     let nslots = 3usize;
     // nested: a few inner lists, each starting with its identity tag
     let mut inner_init = Vec::new();
@@ -302,7 +312,7 @@ pub fn generate_c15(run_seed: u64, thorough: bool, faults: bool) -> ListDesc {
         m.heap.new_list(inner_init[k].clone());
     }
     let script_ok = |op: &Op| -> bool { !matches!(op, Op::InnerPush { .. } | Op::FromVec { .. } | Op::CloneH { .. } | Op::DropH { .. } | Op::ToVec { .. } | Op::Iter { .. } | Op::Debug { .. }) };
-    let rust_ok = |op: &Op| -> bool { !matches!(op, Op::Join { .. } | Op::ForCount { .. } | Op::ForSum { .. } | Op::ForPush { .. }) };
+    let rust_ok = |op: &Op| -> bool { !matches!(op, Op::Join { .. } | Op::ForCount { .. } | Op::ForSum { .. } | Op::ForPush { .. } | Op::ForFind { .. }) };
     for _ in 0..nops {
         let filled: Vec<usize> = (0..nslots).filter(|&s| m.slots[s].is_some()).collect();
         let any = |g: &mut Gen| g.r.below(nslots as u64) as usize;
@@ -331,7 +341,7 @@ pub fn generate_c15(run_seed: u64, thorough: bool, faults: bool) -> ListDesc {
                     _ => g.r.below(len + 2),
                 }
             };
-            match g.r.weighted(&[22, 12, 3, 2, 2, 6, 5, 4, 8, 7, 5, 3, 2, 3, 4, 3, 3, 3, 3]) {
+            match g.r.weighted(&[22, 12, 3, 2, 2, 6, 5, 4, 8, 7, 5, 3, 2, 3, 4, 3, 3, 3, 3, 4]) {
                 0 => Op::Push { h, v: fresh(&mut g) },
                 1 => Op::Get { h, i: idx(&mut g) },
                 2 => Op::Len { h },
@@ -373,7 +383,12 @@ pub fn generate_c15(run_seed: u64, thorough: bool, faults: bool) -> ListDesc {
                     let n = if elem == ElemKind::Zst { 0 } else { g.r.below(4) };
                     if len > 20 { Op::Len { h } } else { Op::ForPush { h, n } }
                 }
-                _ => Op::Concat { a: h, b: h, dst: Some(any(&mut g)), plus: false },
+                18 => Op::Concat { a: h, b: h, dst: Some(any(&mut g)), plus: false },
+                _ => {
+                    // open finding F6: a zero-sized value handed to a script that does not pass it on is
+                    // never dropped; that pattern is replayed from findings/ and left out here
+                    if elem == ElemKind::Zst { Op::ForCount { h } } else { Op::ForFind { h, v: known(&mut g) } }
+                }
             }
         };
         let mut origin = if g.r.chance(1, 2) { Origin::Script } else { Origin::Rust };
@@ -486,6 +501,7 @@ pub fn op_label(op: &Op, origin: &Origin) -> String {
         Op::ForSum { .. } => "for-sum",
         Op::ForPush { .. } => "for-push",
         Op::InnerPush { .. } => "inner-push",
+        Op::ForFind { .. } => "for-find",
     };
     format!("{}:{}", if *origin == Origin::Script { "script" } else { "rust" }, name)
 }
@@ -885,7 +901,7 @@ pub fn shrink(d: &ListDesc) -> Vec<ListDesc> {
     for t in 0..d.threads.len() {
         for k in 0..d.threads[t].ops.len() {
             let (op, origin) = &d.threads[t].ops[k];
-            if *origin == Origin::Script && !matches!(op, Op::Join { .. } | Op::ForCount { .. } | Op::ForSum { .. } | Op::ForPush { .. } | Op::Concat { plus: true, .. } | Op::Eq { ne: true, .. } | Op::Lit3 { .. }) {
+            if *origin == Origin::Script && !matches!(op, Op::Join { .. } | Op::ForCount { .. } | Op::ForSum { .. } | Op::ForPush { .. } | Op::ForFind { .. } | Op::Concat { plus: true, .. } | Op::Eq { ne: true, .. } | Op::Lit3 { .. }) {
                 let mut c = d.clone();
                 c.threads[t].ops[k].1 = Origin::Rust;
                 out.push(c);
